@@ -507,7 +507,7 @@ def run(tier, only=None, prop=PROP, labels=None):
     wake = []
     for b in MPL.benches(tier):
         if "C12" in b["props"]:
-            jobs.append(dict(module="vlib.msgplane", scenario="scenario", loop_bound=60, budget_s=600 if tier == "quick" else 3000,
+            jobs.append(dict(module="vlib.msgplane", scenario="scenario", loop_bound=60, budget_s=1500 if tier == "quick" else 5000,
                              params=dict(bench=b["bench"], driver=b["driver"], permute=b.get("permute", True), acyclic=True, name=b["name"])))
             wake.append(b["name"])
     if only:
